@@ -4223,3 +4223,61 @@ def err8(ctx):
         for a_ in add:
             _SRC_PASS.discard(a_)
     return r
+
+
+# ---------------------------------------------------------------- TAB-12: a plain literal is compared as a whole segment
+
+def tab12(ctx):
+    """`ħ > x` rewrites ħ and nothing else: a literal without modifiers matches a segment iff the two are the same feature
+    bundle. In input_match_ipa / context_match_ipa (local helpers expanded) the literal is compared with the segment under
+    the cursor by `==` on whole `Segment`s (derived, field-wise), or field by field over all four fields, or node by node
+    over all seven node kinds -- a hand-written comparison that leaves a node out conflates the phones that differ only
+    there (ħ/ʜ, ʕ/ʢ differ only in the pharyngeal sub-node)."""
+    r = RuleResult("TAB-12", "input_match_ipa / context_match_ipa: a literal without modifiers is compared with the segment as a whole (Segment ==, or all four fields, or all seven node kinds)", floor=2)
+    lib = ctx.lib
+    sa = lib.adts.get("asca::seg::Segment")
+    nk = lib.adts.get("asca::seg::NodeKind")
+    if not sa or not nk:
+        raise AnchorMissing("TAB-12: Segment / NodeKind types not found")
+    fields = {f["name"] for f in sa["variants"][0]["fields"]}
+    kinds = {v["name"] for v in nk["variants"]} - {"Place"}
+    for path in ("asca::subrule::SubRule::input_match_ipa", "asca::subrule::SubRule::context_match_ipa"):
+        b = ctx.fn(lib, path)
+        tree = hirq.inline_helpers(lib, b, keep={"asca::subrule::SubRule::match_ipa_with_modifiers"}, prefixes=("asca::subrule::SubRule::",), max_depth=2)
+
+        def is_seg(e):
+            e = hirq.strip(e)
+            while isinstance(e, dict) and e.get("e") == "unary" and e.get("op") == "Deref":
+                e = hirq.strip(e["a"])
+            return isinstance(e, dict) and (e.get("ty") or "").lstrip("&").endswith("asca::seg::Segment")
+        whole = [x for x in hirq.walk(tree) if x["e"] == "binary" and x["op"] in ("Eq", "Ne") and (is_seg(x["a"]) or is_seg(x["b"]))]
+        whole += [x for x in hirq.walk(tree) if x["e"] == "mcall" and x["name"] in ("eq", "ne") and (x.get("rty") or "").lstrip("&").endswith("asca::seg::Segment")]
+        cmp_fields, cmp_kinds = set(), set()
+        for x in hirq.walk(tree):
+            if x["e"] == "binary" and x["op"] in ("Eq", "Ne"):
+                for side in (x["a"], x["b"]):
+                    for y in hirq.walk(side):
+                        if y["e"] == "field" and (y.get("of_ty") or "").lstrip("&").endswith("asca::seg::Segment"):
+                            cmp_fields.add(y["name"])
+                        if y["e"] == "mcall" and y["name"] in ("get_node", "is_node_some", "is_node_none"):
+                            for z in hirq.walk(y):
+                                if z["e"] == "path" and (z.get("path") or "").startswith("asca::seg::NodeKind::"):
+                                    cmp_kinds.add(z["path"].rsplit("::", 1)[-1])
+        # node kinds iterated over an array literal
+        for x in hirq.walk(tree):
+            if x["e"] == "array":
+                ks = {(z.get("path") or "").rsplit("::", 1)[-1] for z in hirq.walk(x) if z["e"] == "path" and (z.get("path") or "").startswith("asca::seg::NodeKind::")}
+                if ks and any(y["e"] == "mcall" and y["name"] == "get_node" for y in hirq.walk(tree)):
+                    cmp_kinds |= ks
+        fk = {"root": {"Root"}, "manner": {"Manner"}, "laryngeal": {"Laryngeal"}, "place": {"Labial", "Coronal", "Dorsal", "Pharyngeal"}}
+        for f_ in cmp_fields:
+            cmp_kinds |= fk.get(f_, set())
+        ok = bool(whole) or fields <= cmp_fields or kinds <= cmp_kinds
+        short = path.rsplit("::", 1)[-1]
+        how = "Segment == Segment" if whole else "fields %s" % sorted(cmp_fields) if cmp_fields else "node kinds %s" % sorted(cmp_kinds)
+        r.inst("%s: the plain literal is compared as a whole (%s)" % (short, how), fn_loc(b), "ok" if ok else "report")
+        if not ok:
+            missing = sorted(kinds - cmp_kinds)
+            r.report("TAB-12|%s" % short, fn_loc(b), path,
+                     "a literal without modifiers is not compared with the segment as a whole: the comparison leaves out %s, so phones that differ only there are one phone to the matcher -- `ħ > x` rewrites `ʜa` to `xa` (ħ/ʜ and ʕ/ʢ differ only in the pharyngeal sub-node)" % ", ".join(missing))
+    return r
